@@ -298,6 +298,19 @@ func runC06(p *Prog, r *Report) {
 			r.Obs = append(r.Obs, &o2)
 		}
 	}
+	// R7: a record describes its own frame for as long as it lives: what the processors put on the result
+	// queue shares nothing with the decoder state they overwrite for the next frame
+	r.Min("C06.R7", 3)
+	checkHandOverFreshness(p, r, "C06.R7", func(fn *ssa.Function) bool {
+		if fn.Pkg == nil {
+			return false
+		}
+		switch lastElem(fn.Pkg.Pkg.Path()) {
+		case "tcp", "udp", "icmp", "arp":
+			return true
+		}
+		return false
+	})
 	r.Check(set == "", "C06.R3", "parser/IgnorePanic", "-", "no parser disables gopacket's panic recovery (decoder panics stay errors)", "IgnorePanic set at "+set)
 }
 
